@@ -106,7 +106,8 @@ def run(ctx):
     }
     optional = {"row groups pruned by dynamic filter": msum("row_groups_pruned_dynamic_filter"),
                 "pages skipped as fully matched": msum("page_index_pages_skipped_by_fully_matched"),
-                "file_row_index() in WHERE rejected by the engine": cnt.get("rowidx_filter_rejected_by_engine", 0)}
+                "file_row_index() in WHERE rejected by the engine": cnt.get("rowidx_filter_rejected_by_engine", 0),
+                "file_row_index() not pushed into the scan (documented error; rows still compared)": cnt.get("row_index_not_pushed_into_scan", 0)}
     never = [k for k, v in paths.items() if v == 0]
     if never:
         raise ToolError(f"vacuity: reader paths never exercised in this run: {never}")
